@@ -189,7 +189,13 @@ func (b *mkBuilder) ieBody(dateInBody bool) string {
 	attrName := b.pick("publisher", "source_organization")
 	switch s.F["publisher"] {
 	case "present":
-		parts = append(parts, `<div `+attrName+`="`+b.tk("ie", "publisher")+`">`+b.g.words(2)+`</div>`)
+		part := `<div ` + attrName + `="` + b.tk("ie", "publisher") + `">` + b.g.words(2) + `</div>`
+		if b.g.rng.Intn(2) == 0 {
+			// a syndication note further down names somebody else under the other attribute: the first carrier counts
+			other := map[string]string{"publisher": "source_organization", "source_organization": "publisher"}[attrName]
+			part += `<div ` + other + `="Zqwire Syndicate">` + b.g.words(2) + `</div>`
+		}
+		parts = append(parts, part)
 	case "empty":
 		parts = append(parts, `<div `+attrName+`="">`+b.g.words(2)+`</div>`)
 	}
